@@ -82,28 +82,11 @@ def _layout_starts(ctx: Ctx, r, wd) -> None:
     from ..paths import function_paths
     m = ctx.model
     s0 = wd.params[0]
-    loop = next((n for n in wd.node.body if isinstance(n, ast.For) and ast.unparse(n.iter) == f"{s0}.data"), None)
-    if loop is None:
-        raise AnalysisError("anchor vanished: `for ... in self.data` in _write_data")
+    loop, cn = _find_loop_and_counter(ctx, wd)
     START = f"{s0}.state.memory.get_address_range().start"
-    # the counter: the local that is recorded as a variable's address
-    recs = []
-    for n in ast.walk(loop):
-        tup = None
-        if isinstance(n, ast.Assign) and ast.unparse(n.targets[0]).startswith(f"{s0}.variables[") and isinstance(n.value, ast.Tuple):
-            tup = n.value
-        if isinstance(n, ast.Call) and ast.unparse(n.func) == f"{s0}.variables.update" and n.args and isinstance(n.args[0], ast.Dict) \
-                and n.args[0].values and isinstance(n.args[0].values[0], ast.Tuple):
-            tup = n.args[0].values[0]
-        if tup is not None and len(tup.elts) == 2:
-            recs.append((n, tup))
-    if len(recs) < 5:
-        raise AnalysisError(f"R05.types: only {len(recs)} variable recordings found in _write_data (byte, half, word, string, zero expected)")
-    counters = {ast.unparse(t.elts[0]) for _, t in recs}
-    if len(counters) != 1 or not next(iter(counters)).isidentifier():
-        r.check(False, "start|counter", wd.loc(recs[0][0]), f"variables are recorded at {sorted(counters)}: not one running address counter")
-        return
-    cn = next(iter(counters))
+    recs = _recordings(loop, s0)
+    if len(recs) < 3:
+        raise AnalysisError(f"R05.types: only {len(recs)} variable recordings found in _write_data")
 
     def rounded(k: int, sym: str) -> Form:
         return Form.var(sym).scale(4) + Form.k(4 if k else 0)
@@ -164,64 +147,222 @@ def _layout_starts(ctx: Ctx, r, wd) -> None:
         raise AnalysisError(f"R05.types: only {n_paths} recording paths through the declaration loop")
 
 
+def _find_loop_and_counter(ctx: Ctx, wd):
+    """(declaration loop, counter name): the counter is the local that holds (a function of) the first data address when
+    the declaration loop is entered."""
+    from ..absrun import AbsRun
+    from ..bitslice import Form, Inconclusive
+    m = ctx.model
+    s0 = wd.params[0]
+    loop = next((n for n in wd.node.body if isinstance(n, ast.For) and ast.unparse(n.iter) == f"{s0}.data"), None)
+    if loop is None:
+        raise AnalysisError("anchor vanished: `for ... in self.data` in _write_data")
+    START = f"{s0}.state.memory.get_address_range().start"
+    run = AbsRun(m, wd, {START: Form.var("q").scale(4)}, {})
+    run.lenient = True
+    try:
+        run.block(wd.node.body[:wd.node.body.index(loop)])
+    except Inconclusive as exc:
+        raise AnalysisError(f"R05.types: the code before the declaration loop is outside the abstract interpreter: {exc}")
+    used = {n.id for n in ast.walk(loop) if isinstance(n, ast.Name) and isinstance(n.ctx, ast.Load)}
+    cands = sorted(k for k, v in run.env.items() if k.isidentifier() and k in used and any(sym == "q" for (sym, _b) in list(v.bits) + list(v.tails)))
+    if not cands:
+        # not derived from the first data address (reported by the start|base check): the local the loop keeps advancing
+        stored = {n.id for n in ast.walk(loop) if isinstance(n, ast.Name) and isinstance(n.ctx, ast.Store)}
+        cands = sorted(k for k in run.env if k.isidentifier() and k in used and k in stored)
+    if len(cands) != 1:
+        raise AnalysisError(f"R05.types: the running address counter of _write_data is not recognisable (candidates {cands})")
+    return loop, cands[0]
+
+
+def _recordings(loop: ast.AST, s0: str) -> list:
+    recs = []
+    for n in ast.walk(loop):
+        tup = None
+        if isinstance(n, ast.Assign) and ast.unparse(n.targets[0]).startswith(f"{s0}.variables[") and isinstance(n.value, ast.Tuple):
+            tup = n.value
+        if isinstance(n, ast.Call) and ast.unparse(n.func) == f"{s0}.variables.update" and n.args and isinstance(n.args[0], ast.Dict) \
+                and n.args[0].values and isinstance(n.args[0].values[0], ast.Tuple):
+            tup = n.args[0].values[0]
+        if tup is not None and len(tup.elts) == 2:
+            recs.append((n, tup))
+    return recs
+
+
+def _type_rows(ctx: Ctx, r, wd) -> None:
+    """Per declaration type, on every path through one iteration of the declaration loop (inner element loop unfolded once):
+    the recorded (address, element size), every memory write (method, address, cast, direct flag), the address the next
+    element would be written to, and the counter the next declaration sees -- all as linear forms over the counter at the
+    start of the iteration (sa.absrun), so helpers, tables, cached locals and temporaries do not matter."""
+    from ..absrun import AbsRun
+    from ..bitslice import Form, Inconclusive
+    from ..pathsym import iteration, sym_events
+    from ..paths import function_paths
+    m = ctx.model
+    s0 = wd.params[0]
+    loop, cn = _find_loop_and_counter(ctx, wd)
+    recs = _recordings(loop, s0)
+    rec_ids = {id(n): t for n, t in recs}
+    seen: set = set()
+    per_kind: dict = {}
+
+    for p in function_paths(wd.node):
+        it = iteration(p, loop)
+        if it is None:
+            continue
+        sig = tuple((id(e.node), e.pol, e.kind) for e in p.events[it[0] + 1:it[1]])
+        if sig in seen:
+            continue
+        seen.add(sig)
+        sev = [se for se in sym_events(p) if it[0] < se.index < it[1]]
+        pos, neg = set(), set()
+        for se in sev:
+            if se.event.kind == "test" and isinstance(se.node, ast.Compare) and len(se.node.ops) == 1 and isinstance(se.node.ops[0], ast.Eq) \
+                    and ast.unparse(se.node.left).endswith(".type.type") and isinstance(se.node.comparators[0], ast.Constant):
+                (pos if se.event.pol else neg).add(se.node.comparators[0].value)
+        if len(pos) != 1 or pos & neg:
+            continue
+        kind = next(iter(pos))
+        # replay
+        writes: list = []
+        state = {"inner": None, "depth": 0}
+
+        def hook(c: ast.Call, ev):
+            if isinstance(c.func, ast.Attribute) and c.func.attr.startswith("write_") and not getattr(c, "_seen_write", False):
+                args = list(c.args)
+                kw = {k.arg: k.value for k in c.keywords}
+                addr = args[0] if args else kw.get("address")
+                val = args[1] if len(args) > 1 else kw.get("value")
+                direct = args[2] if len(args) > 2 else kw.get("directly_write_to_lower_memory")
+                try:
+                    af = ev.ev(addr) if addr is not None else None
+                except Inconclusive:
+                    af = None
+                val = ev.resolve_alias(val) if val is not None and hasattr(ev, "resolve_alias") else val
+                cast = inner = "?"
+                if isinstance(val, ast.Call):
+                    fn = ev.resolve_alias(val.func) if hasattr(ev, "resolve_alias") else val.func
+                    cast = ast.unparse(fn).split(".")[-1]
+                    inner = " ".join(ast.unparse(val.args[0]).split()) if val.args else ""
+                writes.append({"method": c.func.attr, "addr": af, "addr_expr": addr, "cast": cast, "arg": inner,
+                               "direct": isinstance(direct, ast.Constant) and direct.value is True, "in_loop": state["inner"] is not None,
+                               "line": getattr(c, "lineno", 0)})
+                return Form.k(0)
+            if isinstance(c.func, ast.Attribute) and c.func.attr == "_literal_to_int":
+                return Form.var("n")
+            return None
+
+        run = AbsRun(m, wd, {cn: Form.var("c").scale(4)}, {}, on_call=hook)
+        run.lenient = True
+        rec = None
+        a_next = None
+        inner_iter = None
+        inner_target = None
+        feasible = True
+        try:
+            for e in p.events[it[0] + 1:it[1]]:
+                if e.kind == "loop" and isinstance(e.node, ast.For):
+                    if e.pol:
+                        state["inner"] = e.node
+                        inner_iter = " ".join(ast.unparse(e.node.iter).split())
+                        inner_target = ast.unparse(e.node.target)
+                    else:
+                        inner_iter = inner_iter or " ".join(ast.unparse(e.node.iter).split())
+                if e.kind == "loopend" and e.node is state["inner"]:
+                    w_in = [w for w in writes if w["in_loop"]]
+                    if w_in and w_in[-1]["addr_expr"] is not None:
+                        try:
+                            a_next = run.ev.ev(w_in[-1]["addr_expr"])
+                        except Inconclusive:
+                            a_next = None
+                    state["inner"] = None
+                if e.kind == "stmt":
+                    hit = next((t for n, t in recs if n is e.node or any(x is n for x in ast.walk(e.node))), None)
+                    if hit is not None and rec is None:
+                        try:
+                            rec = (run.ev.ev(hit.elts[0]), run.ev.ev(hit.elts[1]), e.node)
+                        except Inconclusive:
+                            rec = (None, None, e.node)
+                if not run.run_events([e]):
+                    feasible = False
+                    break
+            c_end = run.env.get(cn)
+        except Inconclusive as exc:
+            raise AnalysisError(f"R05.types: the .{kind} path of the declaration loop is outside the abstract interpreter: {exc}")
+        if not feasible or p.term == "raise" and it[1] >= len(p.events):
+            continue
+        per_kind.setdefault(kind, []).append({"rec": rec, "writes": writes, "a_next": a_next, "c_end": c_end, "entered": any(
+            e.kind == "loop" and e.pol and isinstance(e.node, ast.For) for e in p.events[it[0] + 1:it[1]]),
+            "iter": inner_iter, "target": inner_target, "labels": [x.label() for x in p.events[it[0] + 1:it[1]]][-10:]})
+
+    def d(f_) -> str:
+        return f_.describe() if f_ is not None else "an unknown value"
+
+    for t in ("byte", "half", "word", "string", "zero"):
+        if not per_kind.get(t):
+            raise AnalysisError(f"anchor vanished: no path of the declaration loop handles `.{t}`")
+    for t, (size, stride, writer, cast) in list(TYPES.items()) + [("string", (1, 1, "write_byte", "UInt8")), ("zero", (4, None, None, None))]:
+        rows = per_kind[t]
+        loc = wd.loc(rows[0]["rec"][2]) if rows[0]["rec"] else wd.loc(loop)
+        # recorded element size
+        sizes = sorted({d(x["rec"][1]) if x["rec"] else "nothing" for x in rows})
+        ok = all(x["rec"] is not None and x["rec"][1] is not None and x["rec"][1].is_const() and x["rec"][1].const == size for x in rows)
+        r.check(ok, f".{t}|element-size", loc, f".{t}: recorded element size is {sizes}, elements are {size} byte(s) wide "
+                f"(name[i] would address base + i*{sizes[0]})" if t != "zero" else
+                f".zero: recorded element size is {sizes}; .zero n reserves n *words*, so element i lives at base + 4*i")
+        if t == "zero":
+            ok = all(not x["writes"] and x["rec"] and x["rec"][0] is not None and x["c_end"] is not None
+                     and x["c_end"] == x["rec"][0] + Form.var("n").scale(4) for x in rows)
+            r.check(ok, ".zero|reservation", loc, ".zero n must advance the address counter by 4*n and write nothing; found the next declaration at "
+                    + ", ".join(sorted({d(x["c_end"]) for x in rows})))
+            continue
+        ent = [x for x in rows if x["entered"]]
+        if not ent:
+            raise AnalysisError(f"anchor vanished: the element loop of `.{t}`")
+        for x in rows:
+            a0 = x["rec"][0] if x["rec"] else None
+            win = [w for w in x["writes"] if w["in_loop"]]
+            wout = [w for w in x["writes"] if not w["in_loop"]]
+            detail = [{k: (d(v) if k == "addr" else v) for k, v in w.items() if k not in ("addr_expr",)} for w in x["writes"]]
+            if t != "string":
+                want_iter = "values"
+                ok = not wout and x["c_end"] is not None and a0 is not None
+                if x["entered"]:
+                    ok = ok and len(win) == 1 and win[0]["method"] == writer and win[0]["cast"] == cast and win[0]["direct"] \
+                        and win[0]["addr"] is not None and win[0]["addr"] == a0 and x["a_next"] is not None \
+                        and x["a_next"] == a0 + Form.k(stride) and x["c_end"] == x["a_next"] and want_iter in (x["iter"] or "") \
+                        and "_literal_to_int" in win[0]["arg"] and (x["target"] or "?") in win[0]["arg"]
+                else:
+                    ok = ok and not win and x["c_end"] == a0
+                r.check(ok, f".{t}|writer", loc, f".{t}: every element must be stored with {writer}(<running address>, {cast}(<the literal>), direct), the first at the "
+                        f"recorded address, the next {stride} byte(s) further, and the next declaration continues behind the last element; found "
+                        f"{detail}, next element at {d(x['a_next'])}, next declaration from {d(x['c_end'])}", None, x["labels"])
+            else:
+                ok = a0 is not None and x["c_end"] is not None and len(wout) == 1 and wout[0]["method"] == "write_byte" and wout[0]["cast"] == "UInt8" \
+                    and wout[0]["arg"] == "0" and wout[0]["direct"]
+                if x["entered"]:
+                    okb = len(win) == 1 and win[0]["method"] == "write_byte" and win[0]["cast"] == "UInt8" and win[0]["direct"] \
+                        and win[0]["addr"] is not None and win[0]["addr"] == a0 and x["a_next"] is not None and x["a_next"] == a0 + Form.k(1) \
+                        and win[0]["arg"] == f"ord({x['target']})" and x["iter"] == "line_parsed.string[1:-1]"
+                    end = x["a_next"]
+                else:
+                    okb = not win
+                    end = a0
+                r.check(okb, ".string|bytes", loc, ".string: the characters between the quotes must be stored as consecutive bytes (write_byte, UInt8(ord(c)), direct) "
+                        f"from the recorded address; found {detail}", None, x["labels"])
+                ok = ok and end is not None and wout[0]["addr"] is not None and wout[0]["addr"] == end and x["c_end"] == end + Form.k(1)
+                r.check(ok, ".string|terminator", loc, ".string: a terminating zero byte (write_byte, UInt8(0), direct) must follow the characters and the next "
+                        f"declaration starts behind it; found {detail}, next declaration from {d(x['c_end'])}", None, x["labels"])
+    r.inst("paths", {k: len(v) for k, v in sorted(per_kind.items())})
+
+
+
 def run(ctx: Ctx) -> None:
     m = ctx.model
     pc = m.cls("RiscvParser")
     wd = m.method(pc, "_write_data", own=True)
-    br = _branches(wd)
-    for t in ("byte", "half", "word", "string", "zero"):
-        if t not in br:
-            raise AnalysisError(f"anchor vanished: `type == \"{t}\"` branch of _write_data")
-
     r = ctx.rule("R05.types", "element size, stride, writer and cast agree per declaration type")
-    for t, (size, stride, writer, cast) in TYPES.items():
-        b = br[t].body
-        rec = _recorded(b)
-        r.check(rec is not None and const_int(rec) == size, f".{t}|element-size", wd.loc(br[t]),
-                f".{t}: recorded element size is `{ast.unparse(rec) if rec is not None else '?'}`, elements are {size} byte(s) wide "
-                f"(name[i] would address base + i*{ast.unparse(rec) if rec is not None else '?'})")
-        loop = next((s for s in b if isinstance(s, ast.For)), None)
-        ok = False
-        detail = None
-        if loop is not None and "values" in ast.unparse(loop.iter):
-            wc = [c for c in calls_in(loop) if isinstance(c.func, ast.Attribute) and c.func.attr.startswith("write_")]
-            inc = [s for s in loop.body if isinstance(s, ast.AugAssign) and ast.unparse(s.target) == "address_counter" and isinstance(s.op, ast.Add)]
-            if len(wc) == 1 and len(inc) == 1:
-                c = wc[0]
-                castname = ast.unparse(c.args[1].func).split(".")[-1] if len(c.args) > 1 and isinstance(c.args[1], ast.Call) else "?"
-                direct = any(k.arg == "directly_write_to_lower_memory" and isinstance(k.value, ast.Constant) and k.value.value is True for k in c.keywords)
-                detail = {"writer": c.func.attr, "cast": castname, "stride": const_int(inc[0].value), "direct": direct}
-                ok = c.func.attr == writer and castname == cast and const_int(inc[0].value) == stride \
-                    and ast.unparse(c.args[0]) == "address_counter" and loop.body.index(inc[0]) > 0
-        r.check(ok, f".{t}|writer", wd.loc(br[t]), f".{t}: elements must be stored with {writer}(address_counter, {cast}(..), direct) and a "
-                f"stride of {stride}; found {detail}", detail)
-    # string
-    b = br["string"].body
-    rec = _recorded(b)
-    r.check(rec is not None and const_int(rec) == 1, ".string|element-size", wd.loc(br["string"]), ".string: element size must be 1")
-    loop = next((s for s in b if isinstance(s, ast.For)), None)
-    ok = loop is not None and ast.unparse(loop.iter) == "line_parsed.string[1:-1]"
-    if ok:
-        wc = [c for c in calls_in(loop) if isinstance(c.func, ast.Attribute) and c.func.attr == "write_byte"]
-        inc = [s for s in loop.body if isinstance(s, ast.AugAssign) and ast.unparse(s.target) == "address_counter"]
-        ok = len(wc) == 1 and " ".join(ast.unparse(wc[0].args[1]).split()) == f"fixedint.UInt8(ord({ast.unparse(loop.target)}))" and \
-            len(inc) == 1 and const_int(inc[0].value) == 1
-    r.check(ok, ".string|bytes", wd.loc(br["string"]), ".string: characters between the quotes must be stored as consecutive bytes")
-    after = b[b.index(loop) + 1:] if loop in b else []
-    term = [c for s in after for c in calls_in(s) if isinstance(c.func, ast.Attribute) and c.func.attr == "write_byte"]
-    inc = [s for s in after if isinstance(s, ast.AugAssign) and ast.unparse(s.target) == "address_counter"]
-    ok = len(term) == 1 and " ".join(ast.unparse(term[0].args[1]).split()) == "fixedint.UInt8(0)" and len(inc) == 1 and const_int(inc[0].value) == 1
-    r.check(ok, ".string|terminator", wd.loc(br["string"]), ".string: a terminating zero byte must follow the characters")
-    # zero
-    b = br["zero"].body
-    rec = _recorded(b)
-    r.check(rec is not None and const_int(rec) == 4, ".zero|element-size", wd.loc(br["zero"]),
-            f".zero: recorded element size is `{ast.unparse(rec) if rec is not None else '?'}`; .zero n reserves n *words*, so element i "
-            "lives at base + 4*i")
-    inc = [s for s in b if isinstance(s, ast.AugAssign) and ast.unparse(s.target) == "address_counter"]
-    n_name = next((ast.unparse(s.targets[0]) for s in b if isinstance(s, ast.Assign) and isinstance(s.targets[0], ast.Name)), "num_words")
-    ok = len(inc) == 1 and linform(inc[0].value) in ({f"{n_name}": 4},)
-    r.check(ok, ".zero|reservation", wd.loc(br["zero"]), ".zero n must advance the address counter by 4*n")
+    _type_rows(ctx, r, wd)
     # alignment before every declaration: residue analysis (see _layout_starts)
     _layout_starts(ctx, r, wd)
     # (that preloads are uncounted direct writes is C09's clause: R09.once)
